@@ -78,6 +78,11 @@ class Cond:
         return self.s
 
 
+class StrC:
+    def __init__(self, v):
+        self.v = v
+
+
 class Opaque:
     """a callable kept abstract: a Lean function parameter"""
     def __init__(self, name):
@@ -108,6 +113,8 @@ class Evaluator:
         self.consts = consts        # set of constant names available in BC.Gen
         self.classes = {}
         self.funcs = {}
+        self.notes = []
+        self.guards = []
         for mod in modules.values():
             for n in mod.body:
                 if isinstance(n, ast.ClassDef):
@@ -146,7 +153,9 @@ class Evaluator:
 
     def ev(self, e, env):
         if isinstance(e, ast.Constant):
-            if isinstance(e.value, bool) or e.value is None or isinstance(e.value, str):
+            if isinstance(e.value, str):
+                return StrC(e.value)
+            if isinstance(e.value, bool) or e.value is None:
                 raise Unsupported(f'constant {e.value!r}')
             if isinstance(e.value, int):
                 return IntC(e.value)
@@ -224,6 +233,8 @@ class Evaluator:
                     if dim in DIMS and dim == a.dim:
                         return Num(f'(getIn .{dim} {a.raw} .{unit})')
             raise Unsupported('>> on a non-quantity or foreign unit')
+        if isinstance(op, ast.LShift) and isinstance(a, Qty):
+            return a            # `q << unit` re-labels the display unit, the magnitude is untouched (C13)
         b = self.ev(e.right, env)
         if isinstance(a, Vec) or isinstance(b, Vec):
             name = {ast.Add: '__add__', ast.Sub: '__sub__', ast.Mult: '__mul__'}.get(type(op))
@@ -270,6 +281,8 @@ class Evaluator:
         if isinstance(e, ast.Compare) and len(e.ops) == 1:
             a, b = self.ev(e.left, env), self.ev(e.comparators[0], env)
             op = e.ops[0]
+            if isinstance(op, (ast.NotEq, ast.Eq)) and isinstance(a, StrC) and isinstance(b, StrC):
+                return Cond('static', (a.v == b.v) == isinstance(op, ast.Eq))
             if isinstance(op, (ast.NotEq, ast.Eq)):
                 other = None
                 if isinstance(b, IntC) and b.v == 0:
@@ -348,6 +361,10 @@ class Evaluator:
             return Vec(*[Num(num(a)) for a in args])
         if d == 'object.__new__' and len(e.args) == 1 and isinstance(e.args[0], ast.Name):
             return Obj(e.args[0].id)
+        if d and d.startswith('PreferredUnits.') and len(args) == 1 and not kw:
+            if isinstance(args[0], Qty):
+                return args[0]      # a quantity passes through a preferred-unit coercion unchanged (C07_quantity_keeps_raw)
+            raise Unsupported('preferred-unit coercion of a bare number')
         if d and '.' in d:
             head, tail = d.split('.', 1)
             # unit constructor  Dim.Unit(x)
@@ -377,11 +394,15 @@ class Evaluator:
         if isinstance(f, ast.Name):
             if f.id in env and isinstance(env[f.id], Closure):
                 c = env[f.id]
-                return self.apply(c.fdef, None, args, kw, c.env, c.cls)
+                return self.apply(c.fdef, None, args, kw, c.env, c.cls, scope=c.env)
             if f.id in self.funcs:
                 return self.apply(self.funcs[f.id], None, args, kw, {}, None)
             if not args and kw and f.id[:1].isupper():
                 return Obj(f.id, kw)     # keyword-constructed record (TrajectoryData(...))
+            if f.id in self.classes and args and not kw:
+                fields = [n.target.id for n in self.classes[f.id].body if isinstance(n, ast.AnnAssign) and isinstance(n.target, ast.Name)]
+                if len(fields) == len(args):
+                    return Obj(f.id, dict(zip(fields, args)))     # positional NamedTuple
         raise Unsupported(f'call {d or ast.dump(f)[:80]}')
 
     def call_method(self, cls, name, selfv, args, env):
@@ -390,11 +411,11 @@ class Evaluator:
             raise Unsupported(f'{cls}.{name}')
         return self.apply(m, selfv, args, {}, env, cls)
 
-    def apply(self, fdef, selfv, args, kw, env, cls):
-        """inline a call: bind the parameters, execute the body symbolically"""
+    def apply(self, fdef, selfv, args, kw, env, cls, scope=None):
+        """inline a call: bind the parameters, execute the body symbolically (`scope`: the enclosing scope of a nested def)"""
         params = [a.arg for a in fdef.args.args]
         deco = {self.dotted(d) for d in fdef.decorator_list}
-        new = {}
+        new = dict(scope) if scope is not None else {}
         if params and params[0] == 'self' and 'staticmethod' not in deco:
             params = params[1:]
             if selfv == 'self':
@@ -468,6 +489,14 @@ class Evaluator:
                 fake = ast.BinOp(left=s.target, op=s.op, right=s.value)
                 self.assign(s.target, self.ev(fake, env), env)
                 continue
+            if isinstance(s, ast.If) and len(s.body) == 1 and isinstance(s.body[0], ast.Raise) and not s.orelse:
+                c = self.cond(s.test, env)
+                if c.kind == 'static':
+                    if c.s:
+                        raise Unsupported('a raise that is always reached')
+                    continue
+                self.guards.append(c)      # the call is rejected when this holds: emitted as `<name>_raises`
+                continue
             if isinstance(s, ast.If):
                 c = self.cond(s.test, env)
                 if c.kind == 'static':
@@ -498,7 +527,16 @@ class Evaluator:
                 if r1 is None or r2 is None:
                     raise Unsupported('a path falls off the end of the function')
                 return self.merge(c, r1, r2)
-            if isinstance(s, ast.Pass):
+            if isinstance(s, (ast.Pass, ast.Assert)):
+                continue
+            if isinstance(s, ast.Try):
+                # `a / b` is the field division; the ZeroDivisionError handler is modelled by an explicit guard in the model
+                if not all(isinstance(h.type, ast.Name) and h.type.id == 'ZeroDivisionError' for h in s.handlers) or s.orelse or s.finalbody:
+                    raise Unsupported('try statement other than `except ZeroDivisionError`')
+                self.notes.append('try/except ZeroDivisionError: body translated with field division')
+                r = self.block(s.body, env)
+                if r is not None:
+                    return r
                 continue
             if isinstance(s, ast.Raise):
                 raise Unsupported('a reachable raise statement')
@@ -512,6 +550,9 @@ class Evaluator:
         if isinstance(t, ast.Tuple) and isinstance(v, Lst) and len(t.elts) == len(v.items):
             for tt, vv in zip(t.elts, v.items):
                 self.assign(tt, vv, env)
+            return
+        if isinstance(t, ast.Attribute) and isinstance(t.value, ast.Name) and t.value.id == 'self' and not isinstance(env.get('self'), Obj):
+            env['self.' + t.attr] = v
             return
         if isinstance(t, ast.Attribute) and isinstance(t.value, ast.Name) and isinstance(env.get(t.value.id), Obj):
             o = env[t.value.id]
@@ -586,6 +627,16 @@ SPECS = [
     ('vec_add', 'Vector', '__add__', '(v w : Model.Vec α)', {'self': vec('v'), 'other': vec('w'), 'self.__class__': 'Vector'}, 'vec'),
     ('vec_sub', 'Vector', '__sub__', '(v w : Model.Vec α)', {'self': vec('v'), 'other': vec('w'), 'self.__class__': 'Vector'}, 'vec'),
     ('vec_neg', 'Vector', '__neg__', '(v : Model.Vec α)', {'self': vec('v'), 'self.__class__': 'Vector'}, 'vec'),
+    ('sight_adjustment_SFP', 'Sight', 'get_adjustment', '(s : Model.Sight α) (td drop wind mag : α)', 'SIGHT:SFP', 'clicks'),
+    ('sight_adjustment_FFP', 'Sight', 'get_adjustment', '(s : Model.Sight α) (td drop wind mag : α)', 'SIGHT:FFP', 'clicks'),
+    ('sight_adjustment_LWIR', 'Sight', 'get_adjustment', '(s : Model.Sight α) (td drop wind mag : α)', 'SIGHT:LWIR', 'clicks'),
+    ('velocity_for_temp', 'Ammo', 'get_velocity_for_temp', '(a : Model.Ammo α) (tF : α)',
+     {'self.use_powder_sensitivity': Cond('bool', 'a.usePowderSens'), 'self.mv': q('Velocity', 'a.mv'),
+      'self.powder_temp': q('Temperature', 'a.powderTemp'), 'self.temp_modifier': N('a.tempModifier'),
+      'current_temp': q('Temperature', 'tF'), 'self.__class__': 'Ammo'}, 'raw'),
+    ('calc_powder_sens', 'Ammo', 'calc_powder_sens', '(a : Model.Ammo α) (v1 tF1 : α)',
+     {'self.mv': q('Velocity', 'a.mv'), 'self.powder_temp': q('Temperature', 'a.powderTemp'),
+      'other_velocity': q('Velocity', 'v1'), 'other_temperature': q('Temperature', 'tF1'), 'self.__class__': 'Ammo'}, 'num'),
     ('row', None, 'create_trajectory_row',
      '(time : α) (r v : Model.Vec α) (velocity mach spin look densityFactor drag weight : α) (flag : Model.Flags)',
      {'time': N('time'), 'range_vector': vec('r'), 'velocity_vector': vec('v'), 'velocity': N('velocity'), 'mach': N('mach'),
@@ -604,7 +655,12 @@ def emit(ev, spec):
     fdef = ev.method(cls, fname) if cls else ev.funcs.get(fname)
     if fdef is None:
         raise Unsupported(f'{cls or ""}.{fname} not found in the source')
+    if isinstance(env, str) and env.startswith('SIGHT:'):
+        env = {'self.focal_plane': StrC(env[6:]), 'self.scale_factor': q('Distance', 's.scale'), 'self.h_click_size': q('Angular', 's.hClick'),
+               'self.v_click_size': q('Angular', 's.vClick'), 'target_distance': q('Distance', 'td'), 'drop_adj': q('Angular', 'drop'),
+               'windage_adj': q('Angular', 'wind'), 'magnification': N('mag'), 'self.__class__': 'Sight'}
     env = dict(env)
+    ev.guards = []
     if lname == 'drag_by_mach':
         # cd = _calculate_by_curve_and_mach_list(...) is the curve look-up (modelled and proved separately): a parameter here
         env.pop('_calculate_by_curve_and_mach_list')
@@ -635,6 +691,10 @@ def emit(ev, spec):
         if not isinstance(r, Vec):
             raise Unsupported(f'{fname}: a vector was expected')
         ty, body = 'Model.Vec α', f'⟨{num(r.x)}, {num(r.y)}, {num(r.z)}⟩'
+    elif shape == 'clicks':
+        if not (isinstance(r, Obj) and r.cls == 'SightClicks' and set(r.fields) == {'vertical', 'horizontal'}):
+            raise Unsupported(f'{fname}: a SightClicks was expected')
+        ty, body = 'α × α', f'({num(r.fields["vertical"])}, {num(r.fields["horizontal"])})'
     elif shape == 'row':
         if not (isinstance(r, Obj) and r.cls == 'TrajectoryData'):
             raise Unsupported(f'{fname}: a TrajectoryData was expected')
@@ -652,7 +712,11 @@ def emit(ev, spec):
     else:
         raise Unsupported(shape)
     src = f'{cls + "." if cls else ""}{fname}'
-    return f'/-- `{src}` -/\ndef {lname} {binders} : {ty} :=\n  {body}\n'
+    out = f'/-- `{src}` -/\ndef {lname} {binders} : {ty} :=\n  {body}\n'
+    if ev.guards:
+        g = ' || '.join(c.as_bool() for c in ev.guards)
+        out += f'/-- `{src}` raises (guard statements `if …: raise`) -/\ndef {lname}_raises {binders} : Bool :=\n  ({g})\n'
+    return out
 
 
 def find_self_assign(ev, cls, meth, attr):
@@ -708,7 +772,7 @@ def generate(repo: Path) -> str:
     ev = Evaluator(mods, consts)
     out = ['/- GENERATED by translate/t_funcs.py from the function bodies in py_ballisticcalc/conditions.py,',
            '   trajectory_calc/_trajectory_calc.py, vector/_vector.py — do not edit.  One inlined expression per function. -/',
-           'import BC.Model.Traj', 'namespace BC.Gen.Src', 'open BC BC.Gen BC.Model', '',
+           'import BC.Model.Traj', 'import BC.Model.Sight', 'namespace BC.Gen.Src', 'open BC BC.Gen BC.Model', '',
            'section',
            'variable {α : Type} [Add α] [Sub α] [Mul α] [Div α] [Neg α] [OfScientific α]',
            '  [LT α] [DecidableLT α] [LE α] [DecidableLE α] [Fn α]', '']
